@@ -13,6 +13,13 @@ claimed={
  'C05':("All grammar-conforming histories up to a length bound through every stateful operator (plus two-input operators under all select answers) checked against the grammar and against a fresh operator per iteration; probes after every operator of whole jobs under schedule exploration.",E2+"; "+E1),
  'C06':("All contract-respecting per-replica watermark/element sequences x all arrival interleavings through the real Start, and all contract-respecting histories through each operator; monitor: nothing at or below an emitted watermark.",E2),
  'C08':("Every pair of small input lists x join variant x algorithm through the real two-input Start with every answer of the two-way select enumerated (all arrival interleavings and end orders); interval joins as jobs under schedule exploration; oracle = nested-loop join.",E2+" with environment choices enumerated by the explorer; "+E1),
+ 'C07':("14 aggregation forms x all small keyed multisets x all assignments to source replicas x timestamped or not, also inside a 2-round replay, as real jobs under schedule exploration; a probe right after the aggregation checks one result per key per iteration, its value against a sequential fold and its timestamp.",E1+" + exhaustive input/partitioning enumeration"),
+ 'C09':("split / route / merge / broadcast / zip jobs for all small shapes (branch counts, length pairs, parallelism, capacity 1 to make one branch slow) under schedule exploration, oracles literally from the statement.",E1),
+ 'C10':("replay/iterate jobs with bodies that read the loop state; every state read of every replica in every explored schedule (incl. remote layouts where the state broadcast crosses hosts) is compared with the sequential loop's state of that round; vector-clock race detector on the UnsafeCell state.",E1+" + happens-before race detection in the model"),
+ 'C11':("loops whose body merges/joins an outside stream: per-round body output must equal what the complete side input gives, in every explored schedule (which decides when side batches are cached).",E1),
+ 'C16':("single-replica chains across 1-4 block boundaries for six batch modes and two capacities under schedule exploration (sink order = iterator-chain order); all contract-respecting histories through reorder().",E1+"; "+E2),
+ 'C18':("virtual clock: a harness task feeds a channel source and stays idle; with adaptive batching every element must reach the sink while the source is open (a withheld element = detected deadlock) and within a bounded virtual latency; early timer firings are deviations.",E1+" with a virtual clock (timer order enumerated)"),
+ 'C20':("crash-point enumeration x schedule exploration: injected panic at (operator position, replica, k-th element) in acyclic jobs; execute_blocking must fail, no downstream sink may publish, no worker may stay blocked.",E1+" x exhaustive crash-point enumeration"),
  'C12':("All histories over {key0, key1, end-of-iteration} up to the length bound for every 1<=S<=N<=5, exact/non-exact, six aggregators, through the real keyed count-window operator, compared with reference sliding groups.",E2),
  'C13':("All contract-respecting histories (out-of-order arrivals, boundary watermarks, iteration ends) up to the length bound for sizes 1..4 and slides 1..size through the real event-time window operator; all command sequences for transaction windows.",E2),
  'C14':("Driver-owned virtual clock: all step sequences (delay from a boundary grid, then element) with an end of iteration at every position through the real processing-time and session window operators; conservation/coverage oracle.",E2+" with the virtual clock as an enumerated environment answer"),
